@@ -210,7 +210,7 @@ func (l *lockedBuf) String() string {
 
 // ---------- inputs with faults ----------
 
-var lexFaults = []string{"@", "$", "!", "! x", "1a", "0x1G", "1.", "1e", "1e+", "\"abc", "\"a\\", "\"a\"b", "é", "éx", "ab\"c\"", "?", "`", "\x00", "\xff", "[", "]", ",", ".", "~", "%", "&", "|", "^", "\xef\xbb\xbf", "\xa0", "\x85", "\xc2"}
+var lexFaults = []string{"@", "$", "!", "! x", "1a", "0x1G", "1.", "1e", "1e+", "1.5x", "2e3q", "1.5\"s\"", "0.5e1\"", "\"abc", "\"a\\", "\"a\\\n", "\"a\"b", "é", "éx", "ab\"c\"", "?", "`", "\x00", "\xff", "[", "]", ",", ".", "~", "%", "&", "|", "^", "\xef\xbb\xbf", "\xa0", "\x85", "\xc2"}
 
 // injectLexFault inserts a lexically invalid fragment at a token gap of a
 // rendered source. It returns the new source and the gap used.
